@@ -1002,6 +1002,7 @@ def run(ck: Ck) -> None:
             'inverse_result_is_right_block': 'out_ok inverse_prog',
             'inverse_indexes_in_range': 'ops_in_range inverse_prog',
             'inverse_left_block_becomes_identity': 'left_becomes_identity inverse_prog',
+            'inverse_skip_guards_fire_only_for_a_zero_multiplier': 'skips_only_exact_zero inverse_prog',
             'inverse_prog_ok': 'gj_prog_ok inverse_prog',
             'inverse_pivot_searches_succeed_on_rotations': 'pivots_found inverse_prog',
             'inverse_divisors_nonzero_on_rotations': 'divisors_nonzero inverse_prog',
